@@ -4,7 +4,7 @@
 set -u
 S=$(mktemp -d /tmp/vrp.XXXXXX); trap 'rm -rf "$S"' EXIT
 rsync -a --exclude .git /repo/ "$S/repo/"; mkdir -p "$S/out"
-(cd "$S/repo" && patch -p1 -s < "$1") || { echo "REFPATCH: cannot apply $1"; exit 3; }
+(cd "$S/repo" && patch -p1 -s --fuzz=3 < "$1") || { echo "REFPATCH: cannot apply $1"; exit 3; }
 . /verif/env.sh
 (cd "$S/repo" && go build ./... && go test -vet=off -count=1 ./... > "$S/test.log" 2>&1) || { grep -v '^ok\|no test files' "$S/test.log" | head -10; echo "REFPATCH: $1 does not build/pass tests"; exit 3; }
 VERIF_REPO="$S/repo" VERIF_OUT="$S/out" /verif/run.sh all quick | grep -v '^KNOWN\|^    path' | grep 'violation:\|UNDECIDED' | cut -c1-300
